@@ -455,8 +455,10 @@ impl<'a> Pool<'a> {
                 let it = Spec::Item(self.arg_item());
                 let it = self.decorate(it);
                 let c = self.catch();
-                match self.rng.below(9) {
+                match self.rng.below(10) {
                     0 => it,
+                    // `argument(..).count()`: how many times it was given
+                    9 => Spec::wrap(W::Count, self.id(), it),
                     1 => Spec::wrap(W::Optional { catch: c }, self.id(), it),
                     2 => {
                         let o = Spec::wrap(W::Optional { catch: c }, self.id(), it);
